@@ -81,6 +81,9 @@ def create_drawdowns(returns):
     # and set up the High Water Mark
     idx = returns.index
     hwm = np.zeros(len(idx))
+    if len(idx) > 0:
+        # The running maximum includes the first observation
+        hwm[0] = returns.iloc[0]
 
     # Create the high water mark
     for t in range(1, len(idx)):
